@@ -119,6 +119,9 @@ var tokAlpha = []string{"a", "doc", "=", ";", "|", "*", "+", "?", "%", "++", "("
 
 var bodyAlpha = []string{"doc", "e", `"x"`, "'c'", "INT", `""`, "|", "*", "+", "?", "%", "++", "(", ")"}
 
+// auxRules: the second rule of the body block. The first is valid; the others each fail to compile differently.
+var auxRules = []string{"e = INT", "e = 'c'", `e = "=+"`, `e = ""`, "e = x", "e = e \"x\"", "e = doc", `e = ?"x"`}
+
 var menu = []string{
 	"", "\n", ";", "doc", "doc =", "doc = ;", "= \"a\"", "doc \"a\"", "doc = \"a\"", "doc = \"a\";", "doc = \"a\";;", "doc = \"a\" doc2 = \"b\"",
 	"doc = \"a\"\ndoc = \"b\"", "doc = \"a\"\ndoc = \"b\"\ndoc = \"c\"", "doc = x\ndoc = \"b\"", // duplicates
@@ -239,20 +242,32 @@ func main() {
 			}
 		case b < nLit+nOps+nTok+nBody:
 			b -= nLit + nOps + nTok
-			if b < B { // bodies of length 1
-				run(w, "doc = "+bodyAlpha[b]+"\ne = INT")
-			}
-			var rec func(parts []string)
-			rec = func(parts []string) {
-				run(w, "doc = "+strings.Join(parts, " ")+"\ne = INT")
-				if len(parts) == maxTok {
-					return
+			// the second rule is valid (e = INT) or fails to compile in one of several ways: a reference to a
+			// rule that could not be compiled must still end in an error, never in a panic
+			for ai, aux := range auxRules {
+				max := maxTok
+				if ai > 0 {
+					max = maxTok - 1
 				}
-				for _, t := range bodyAlpha {
-					rec(append(parts, t))
+				if b < B { // bodies of length 1
+					run(w, "doc = "+bodyAlpha[b]+"\n"+aux)
+					run(w, aux+"\ndoc = "+bodyAlpha[b])
 				}
+				var rec func(parts []string)
+				rec = func(parts []string) {
+					run(w, "doc = "+strings.Join(parts, " ")+"\n"+aux)
+					if ai > 0 && len(parts) <= 3 {
+						run(w, aux+"\ndoc = "+strings.Join(parts, " "))
+					}
+					if len(parts) >= max {
+						return
+					}
+					for _, t := range bodyAlpha {
+						rec(append(parts, t))
+					}
+				}
+				rec([]string{bodyAlpha[b/B], bodyAlpha[b%B]})
 			}
-			rec([]string{bodyAlpha[b/B], bodyAlpha[b%B]})
 		default:
 			for _, s := range menu {
 				run(w, s)
@@ -260,7 +275,7 @@ func main() {
 		}
 	}
 	job.Run(c)
-	c.Rule = fmt.Sprintf("(lit) doc = '\\xNN', doc = \"\\xNN\" and doc = <raw byte NN> for all 256 NN; (ops) every 2- and 3-byte string over the %d-symbol operator alphabet %q, as whole source and as `doc = <s>`; (toks) every sequence of 0..%d tokens over the %d-token alphabet %q joined by blanks; (body) `doc = <s>` + newline + `e = INT` for every sequence s of 1..%d tokens over %q; (menu) %d hand-written rule shapes (duplicate/undefined/unreachable rules, empty file, missing body, direct and mutual recursion, RetProc lambdas, literal and token-name edge cases); every source x %d entry points %q. distinct_nontrivial = sources accepted by tpl/parser (the compiler proper ran)",
+	c.Rule = fmt.Sprintf("(lit) doc = '\\xNN', doc = \"\\xNN\" and doc = <raw byte NN> for all 256 NN; (ops) every 2- and 3-byte string over the %d-symbol operator alphabet %q, as whole source and as `doc = <s>`; (toks) every sequence of 0..%d tokens over the %d-token alphabet %q joined by blanks; (body) `doc = <s>` + newline + a second rule from {e = INT, e = 'c', e = \"=+\", e = \"\", e = x, e = e \"x\", e = doc, e = ?\"x\"} (one token shorter for the failing ones, both rule orders) for every sequence s of 1..%d tokens over %q; (menu) %d hand-written rule shapes (duplicate/undefined/unreachable rules, empty file, missing body, direct and mutual recursion, RetProc lambdas, literal and token-name edge cases); every source x %d entry points %q. distinct_nontrivial = sources accepted by tpl/parser (the compiler proper ran)",
 		len(opAlpha), strings.Join(opAlpha, ""), maxTok, T, tokAlpha, maxTok, bodyAlpha, len(menu), len(eps), eps)
 	c.Assumptions = []string{
 		"a worker making no progress for 30 s on one source is a hang; heap above 1500 MB is an OOM verdict (both would be violations)",
